@@ -195,7 +195,9 @@ struct Shared {
     active: std::sync::atomic::AtomicUsize,
     probe_outstanding: std::sync::atomic::AtomicBool,
 }
-const HOST_PORTS: [u16; 4] = [80, 8081, 8082, 8083];
+/// (port 80, where the agent's telemetry task sends its own goal-state requests whatever the key keeper's base
+/// URL is, gets a listener that answers 404 and judges nothing: those requests cannot be attributed to a history)
+const HOST_PORTS: [u16; 4] = [8084, 8081, 8082, 8083];
 
 const GOALSTATE: &str = r#"<?xml version="1.0" encoding="utf-8"?><GoalState><Version>2015-04-05</Version><Incarnation>16</Incarnation><Machine><ExpectedState>Started</ExpectedState><StopRolesDeadlineHint>300000</StopRolesDeadlineHint><LBProbePorts><Port>16001</Port></LBProbePorts><ExpectHealthReport>FALSE</ExpectHealthReport></Machine><Container><ContainerId>c</ContainerId><RoleInstanceList><RoleInstance><InstanceId>i</InstanceId><State>Started</State><Configuration><HostingEnvironmentConfig>http://168.63.129.16:80/machine/c/i?comp=config&amp;type=hostingEnvironmentConfig&amp;incarnation=16</HostingEnvironmentConfig><SharedConfig>http://168.63.129.16:80/machine/c/i?comp=config&amp;type=sharedConfig&amp;incarnation=16</SharedConfig><ExtensionsConfig>http://168.63.129.16:80/machine/c/i?comp=config&amp;type=extensionsConfig&amp;incarnation=16</ExtensionsConfig><FullConfig>http://168.63.129.16:80/machine/c/i?comp=config&amp;type=fullConfig&amp;incarnation=16</FullConfig><Certificates>http://168.63.129.16:80/machine/c/i?comp=certificates&amp;incarnation=16</Certificates><ConfigName>x.xml</ConfigName></Configuration></RoleInstance></RoleInstanceList></Container></GoalState>"#;
 
@@ -225,6 +227,12 @@ fn probe(sh: &Arc<Shared>, at: &str) {
 static PROBE_AT: Mutex<String> = Mutex::new(String::new());
 
 fn start_hosts(sh: &Arc<Shared>) -> Vec<MockHost> {
+    static PORT80: std::sync::OnceLock<MockHost> = std::sync::OnceLock::new();
+    PORT80.get_or_init(|| {
+        let h = MockHost::start("wireserver-80", world::WS).unwrap_or_else(|e| vcommon::result::machinery(&format!("cannot bind {}: {e} (not inside bin/ns?)", world::WS)));
+        h.set_responder(Arc::new(|_m: &Msg, _c, _i| Action::Reply(vec![simple_response(404, &[], b"")])));
+        h
+    });
     (0..HOST_PORTS.len()).map(|i| start_host(sh.clone(), i)).collect()
 }
 
